@@ -534,6 +534,54 @@ func TestVMSource_Generator(t *testing.T) {
 			wantStdout:   "12\n6\n0\n",
 			wantStackTop: value.Nil,
 		},
+		"ends with a method call": {
+			source: `
+				def leaf(a: Int): Int
+					a + 1
+				end
+				def *gen(n: Int): Int
+					yield n
+					leaf(n)
+				end
+				def outer(k: Int)
+					n := 0
+					for x in gen(k)
+						println("Y " + x.inspect)
+						n += 1
+					end
+					println("END " + n.inspect)
+				end
+
+				outer(1)
+			`,
+			wantStdout:   "Y 1\nY 2\nEND 2\n",
+			wantStackTop: value.Nil,
+		},
+		"yields the result of a method call": {
+			source: `
+				def leaf(a: Int): Int
+					a + 1
+				end
+				def *gen(n: Int): Int
+					x := leaf(n)
+					yield leaf(x)
+					yield 5
+					3
+				end
+				def outer(k: Int)
+					n := 0
+					for x in gen(k)
+						println("Y " + x.inspect)
+						n += 1
+					end
+					println("END " + n.inspect)
+				end
+
+				outer(2)
+			`,
+			wantStdout:   "Y 4\nY 5\nY 3\nEND 3\n",
+			wantStackTop: value.Nil,
+		},
 		"throws :stop_iteration after the last yield": {
 			source: `
 				def *foo(): Int
